@@ -70,20 +70,20 @@ def run(ctx):
 
     families = []
     m1 = gen("Delta_mc.cfg", defs(P2, 3, 3, "tree", True))
-    families.append(("core", m1.printed("SCRIPT"), ctx.pick(80, 900), 3))
+    families.append(("core", m1.printed("SCRIPT"), ctx.pick(80, 400), 3))
     g = gen("Delta_fallback.cfg", defs(P2, 2, 3, "atomic", True))
-    families.append(("fallback", g.printed("SCRIPT"), ctx.pick(30, 500), 3))
+    families.append(("fallback", g.printed("SCRIPT"), ctx.pick(30, 200), 3))
     g = gen("Delta_ignore.cfg", defs(PIG3 if T else PIG, 3, ctx.pick(2, 3), "tree", True))
-    families.append(("ignore", g.printed("SCRIPT"), ctx.pick(20, 300), ctx.pick(2, 3)))
+    families.append(("ignore", g.printed("SCRIPT"), ctx.pick(20, 100), ctx.pick(2, 3)))
     if T:
         m1 = ctx.model_check("Delta", "Delta_mc.cfg", timeout=3000, defines=defs(P2, 4, 3, "tree", False))
         ctx.model_check("Delta", "Delta_mc.cfg", timeout=3000, defines=defs(P3, 4, 3, "atomic", False))
         ctx.model_check("Delta", "Delta_ignore.cfg", timeout=3000, defines=defs(PIG, 4, 3, "tree", False))
-        g = ctx.tlc("Delta", "Delta_mc.cfg", timeout=3000, count=False, simulate="num=700", depth=11, seed=ctx.seed,
+        g = ctx.tlc("Delta", "Delta_mc.cfg", timeout=3000, count=False, simulate="num=400", depth=11, seed=ctx.seed,
                     defines=defs(P3, 6, 5, "atomic", True))
         if not g.ok:
             raise vk.Inconclusive("simulation failed: %s" % g.log)
-        families.append(("sim3", g.printed("SCRIPT"), 700, 4))
+        families.append(("sim3", g.printed("SCRIPT"), 300, 4))
     # the strict property must fail in the ignore family (the named deviation is reachable)
     res = ctx.tlc("Delta", "Delta_ignore_strict.cfg", timeout=1800, count=False, defines=defs(PIG, 3, 2, "tree", False))
     if res.invariant != "BranchViewsStrict":
